@@ -6,6 +6,11 @@ sys.path.insert(0, "/verif")
 from sa import facts
 prog = facts.load()
 names = sorted({f.name for f in prog.fns.values() if f.crate in ("msi", "msi_ffi") and f.kind in ("Fn", "AssocFn")})
-json.dump({"comment": "functions of msi and msi_ffi on the tree the shape rules were confirmed on; calls to workspace functions NOT in this list are inlined before the rules run (sa/inline.py)",
-           "tree": facts.tree_hash(), "functions": names}, open("/verif/tables/known_fns.json", "w"), indent=0)
+sigs = {}
+for f in prog.fns.values():
+    if f.crate in ("msi", "msi_ffi") and f.kind in ("Fn", "AssocFn"):
+        sigs[f.name] = [f.locals[i] for i in range(0, f.argc + 1)]
+json.dump({"comment": "functions of msi and msi_ffi on the tree the shape rules were confirmed on; calls to workspace functions NOT in this list are inlined before the rules run (sa/inline.py); "
+                      "signatures (return type, then parameter types) let a renamed or moved private function be recognised",
+           "tree": facts.tree_hash(), "functions": names, "signatures": sigs}, open("/verif/tables/known_fns.json", "w"), indent=0)
 print(len(names), "functions")
